@@ -13,7 +13,7 @@
 (*  list  : header, count c, c elements of elembits: c > cap or a body shorter  *)
 (*          than elemsoff + c*elembits is Corrupt, otherwise Typed;             *)
 (*  msm   : header (73 bits), 64-bit satellite mask, 32-bit signal mask; both   *)
-(*          zero: empty message; |S|*|G| = 0 or > 64: Corrupt; then the cell    *)
+(*          zero: empty message; exactly one zero: either; > 64: Corrupt; then the cell *)
 (*          mask, |S| satellite rows and one signal row per set cell; a body    *)
 (*          that is too short is Corrupt; a cell on a signal position outside   *)
 (*          the standard table may be either (the library may know more         *)
@@ -34,17 +34,22 @@ MsmClass(f, m) ==
              G == Ones1(PBits(f, m.fixedbits + 64, 32))
              nc == Cardinality(S) * Cardinality(G) IN
          IF S = {} /\ G = {} THEN (IF body - (m.fixedbits + 96) < 8 THEN "typed" ELSE "either")
-         ELSE IF nc = 0 \/ nc > 64 THEN "corrupt"
+         \* exactly one empty mask: the encoder never writes it; accepted-as-empty or Corrupt are both compatible with C10
+         ELSE IF nc = 0 THEN "either"
+         ELSE IF nc > 64 THEN "corrupt"
          ELSE IF body < m.fixedbits + 96 + nc THEN "corrupt"
          ELSE LET cm == PBits(f, m.fixedbits + 96, nc)
                   ncell == Cardinality(Ones1(cm))
-                  gs == SetToSortSeq(G, <)
-                  \* signal positions that actually carry a cell
-                  used == {gs[((i - 1) % Len(gs)) + 1] : i \in Ones1(cm)}
+                  ng == Cardinality(G)
+                  \* every satellite row and every signal column of the cell mask carries a cell (what C10's encoder guarantees)
+                  fullrows == \A r \in 0..(Cardinality(S) - 1) : \E c \in 1..ng : cm[r * ng + c] = 1
+                  fullcols == \A c \in 1..ng : \E r \in 0..(Cardinality(S) - 1) : cm[r * ng + c] = 1
                   need == m.fixedbits + 96 + nc + Cardinality(S) * m.satbits + ncell * m.sigbits IN
               IF body < need THEN "corrupt"
               ELSE IF body - need >= 8 THEN "either"
-              ELSE IF \A p \in used : \E t \in Std[m.gnss] : t[1] = p THEN "typed" ELSE "either"
+              \* typed is demanded only for frames an encoder satisfying C10 can produce: standard signal positions only,
+              \* no satellite without a cell, no signal without a cell; a stricter or more lenient decoder may differ elsewhere
+              ELSE IF fullrows /\ fullcols /\ (\A p \in G : \E t \in Std[m.gnss] : t[1] = p) THEN "typed" ELSE "either"
 
 ListClass(f, m, L) ==
     LET body == 8 * DeclLen(f) IN
